@@ -188,7 +188,9 @@ func vfGenC10(r *rand.Rand, c int, maxSteps int, senders int) *vfC10Case {
 		}
 	}
 	// make sure every history ends with an acknowledgement - in a third of them with the connection dead for writes
-	if r.Intn(3) == 0 {
+	if k := r.Intn(6); k == 0 {
+		cs.Steps = append(cs.Steps, vfC10Step{Op: "msg", Text: fmt.Sprintf("o%d-last", c)}, vfC10Step{Op: "dead-send", Text: fmt.Sprintf("o%d-void", c)})
+	} else if k <= 2 {
 		cs.Steps = append(cs.Steps, vfC10Step{Op: "msg", Text: fmt.Sprintf("o%d-last", c)}, vfC10Step{Op: "dead-then-ack", N: r.Intn(sent + 1), Rel: "h<sent"})
 	} else {
 		cs.Steps = append(cs.Steps, vfC10Step{Op: "ack", N: 1 + r.Intn(sent+1), Rel: "h<sent"})
@@ -395,6 +397,22 @@ func vfC10RunSequential(run *vfkit.Run, cs *vfC10Case) {
 			}
 			m.W = append(m.W, fmt.Sprintf(`<a xmlns="urn:xmpp:sm:3" h="%d"></a>`, inbound))
 			inbound++ // the marker
+		case "dead-send":
+			// the connection is dead for writes and the application sends: that Send fails (or, who knows, is accepted
+			// and held) - but whatever was accepted before and is still unacknowledged stays held, in its order
+			atomic.StoreInt32(&s.fc.failAll, 1)
+			before, _ := vfQueueTexts(s.c)
+			serr := s.c.Send(stanza.Message{Attrs: stanza.Attrs{Id: st.Text, To: "a@b"}, Body: "into the void"})
+			after, _ := vfQueueTexts(s.c)
+			okPrefix := len(after) >= len(before) && len(after) <= len(before)+1 && vfSameStrs(after[:len(before)], before)
+			if !vfSameStrs(before, m.held()) || !okPrefix {
+				run.Violation("C10/held-list-wrong:after-failed-send", fmt.Sprintf("step %d: writes fail, Send returned %v: held before %d %s, held after %d %s, unacknowledged by the model %d %s", i, serr, len(before), vfClipList(before), len(after), vfClipList(after), len(m.held()), vfClipList(m.held())), cs)
+				return
+			}
+			run.Count("failed_sends_with_others_held", 1)
+			run.Count("steps_checked", int64(i+1))
+			run.Nontrivial(fmt.Sprintf("%v", cs.Steps))
+			return
 		case "dead-then-ack":
 			// from now on every write fails; the acknowledgement that follows leaves stanzas unacknowledged, whose
 			// retransmission therefore fails: they must still be held
